@@ -399,6 +399,22 @@ def _sample(ctx, cfg):
         ok = r == "RESULT" and len(calls) == 1 and calls[0][0] == 3 and tuple(calls[0][1].shape) == (7, cfg["nv"]) \
             and calls[0][1].dtype == torch.double and bool(((calls[0][1] == 0) | (calls[0][1] == 1)).all())
         ctx.holds("sample/default-start-is-a-0/1-array-of-the-requested-shape", ok, str(calls)[:200])
+    # history: chains continued over several sample() calls follow the powers of the kernel only if every call consumes
+    # fresh randomness: the global generator is left exactly where the chain's own draws left it (no save / restore
+    # around the chain, no reseeding)
+    def drawing_stub(k, initial_state, overwrite=False):
+        torch.rand(4)                       # the chain's draws, from the global generator
+        return initial_state
+    with N.stubbed(state.rbm_am, "gibbs_steps", drawing_stub):
+        torch.manual_seed(1234)
+        before = torch.get_rng_state()
+        state.sample(k=1, initial_state=torch.zeros(2, cfg["nv"], dtype=torch.double))
+        after = torch.get_rng_state()
+        torch.set_rng_state(before)
+        torch.rand(4)
+        expected = torch.get_rng_state()
+        ctx.holds("sample/history: the global generator is left where the chain's draws left it (successive calls get fresh randomness)",
+                  torch.equal(after, expected) and not torch.equal(after, before))
     # the real chain end-to-end with concrete parameters: shape and 0/1 values
     out = state.sample(k=2, num_samples=5)
     ctx.holds("sample/result-shape-and-values", tuple(out.shape) == (5, cfg["nv"]) and bool(((out == 0) | (out == 1)).all()))
